@@ -802,6 +802,19 @@ func (in *Interp) doCall(fr *frame, c *ssa.Call) (Val, error) {
 	if m, ok := in.Models[callee.String()]; ok {
 		return m(in, args, c)
 	}
+	// a cell of sync/atomic that caches an object between calls: the interpretation follows the path on which
+	// nothing is cached (Load and Swap give nil, the object is built afresh); what a cached object may hold and
+	// who may touch it is the business of the cell rules (kept-state inventory, cached-buffer-exclusive)
+	if cs := callee.String(); strings.HasPrefix(cs, "(*sync/atomic.Pointer[") {
+		switch callee.Name() {
+		case "Load", "Swap":
+			return NilV{}, nil
+		case "Store":
+			return nil, nil
+		case "CompareAndSwap":
+			return BoolV{Known: true, B: true}, nil
+		}
+	}
 	if callee.Pkg != nil && strings.HasPrefix(callee.Pkg.Pkg.Path(), in.InlinePrefix) {
 		return in.Call(callee, args)
 	}
